@@ -112,45 +112,53 @@ def run(modules, select=None, jobs=None, opts=None):
         funcs[key] = {"file": c.file, "qualname": key[1], "paths": 0, "terminal_paths": 0, "obligations": [], "status": "ok",
                       "reason": "", "src_hash": "", "time": 0.0, "lib_used": set(), "touched": {}, "hard": set(), "deps": []}
     t0 = time.time()
-    frontier = [(modules, k[0], k[1], [], opts, ()) for k in funcs]
     jobs = jobs or int(os.environ.get("PYVC_JOBS", "16"))
-    ctx = mp.get_context("fork")
-    pool = ctx.Pool(jobs) if jobs > 1 else None
-    try:
-        while frontier:
-            if pool is not None:
-                results = pool.map(_path_work, frontier, chunksize=max(1, len(frontier) // (jobs * 8)))
-            else:
-                results = [_path_work(a) for a in frontier]
-            frontier = []
-            for r in results:
-                f = funcs[tuple(r["key"])]
-                f["paths"] += 1
-                f["time"] += r["time"]
-                f["lib_used"] |= set(r["lib_used"])
-                f["touched"].update(r["touched"])
-                if r["status"] != "ok":
-                    if f["status"] == "ok" or r["status"] == "error":
-                        f["status"], f["reason"] = r["status"], r["reason"]
-                    continue
-                if r["terminal"]:
-                    f["terminal_paths"] += 1
-                for ob in r["obligations"]:
-                    ob["path"] = f["paths"]
-                    f["obligations"].append(ob)
-                    if ob["status"] != "discharged":
-                        f["hard"].add(ob["name"])
-                if f["status"] != "ok":
-                    continue
-                if f["paths"] + len(r["alternatives"]) > MAX_PATHS:
-                    f["status"], f["reason"] = "undecided", "more than %d paths" % MAX_PATHS
-                    continue
-                for alt in r["alternatives"]:
-                    frontier.append((modules, r["key"][0], r["key"][1], alt, opts, tuple(sorted(f["hard"]))[:50]))
-    finally:
-        if pool is not None:
-            pool.close()
-            pool.join()
+
+    def handle(r, submit):
+        f = funcs[tuple(r["key"])]
+        f["paths"] += 1
+        f["time"] += r["time"]
+        f["lib_used"] |= set(r["lib_used"])
+        f["touched"].update(r["touched"])
+        if r["status"] != "ok":
+            if f["status"] == "ok" or r["status"] == "error":
+                f["status"], f["reason"] = r["status"], r["reason"]
+            return
+        if r["terminal"]:
+            f["terminal_paths"] += 1
+        for ob in r["obligations"]:
+            ob["path"] = f["paths"]
+            f["obligations"].append(ob)
+            if ob["status"] != "discharged":
+                f["hard"].add(ob["name"])
+        if f["status"] != "ok":
+            return
+        if f["paths"] + len(r["alternatives"]) > MAX_PATHS:
+            f["status"], f["reason"] = "undecided", "more than %d paths" % MAX_PATHS
+            return
+        for alt in r["alternatives"]:
+            submit((modules, r["key"][0], r["key"][1], alt, opts, tuple(sorted(f["hard"]))[:50]))
+
+    first = [(modules, k[0], k[1], [], opts, ()) for k in funcs]
+    if jobs <= 1:
+        todo = list(first)
+        while todo:
+            handle(_path_work(todo.pop()), todo.append)
+    else:
+        import concurrent.futures as cf
+        ctx = mp.get_context("fork")
+        with cf.ProcessPoolExecutor(max_workers=jobs, mp_context=ctx) as ex:
+            pending = set()
+
+            def submit(a):
+                pending.add(ex.submit(_path_work, a))
+            for a in first:
+                submit(a)
+            while pending:
+                done, _ = cf.wait(pending, return_when=cf.FIRST_COMPLETED)
+                for fu in done:
+                    pending.discard(fu)
+                    handle(fu.result(), submit)
     out = []
     for key, f in funcs.items():
         f["src_hash"] = hashlib.sha256(json.dumps(sorted(f["touched"].items())).encode()).hexdigest()[:16]
